@@ -1,5 +1,7 @@
 import Soa.Lemmas.Positions
 import Batteries.Data.List.Perm
+import Soa.Model.Pinned
+import Soa.Extracted.Bodies
 /-!
 # C07 — sorting and reordering move all fields by one stable permutation
 
@@ -144,5 +146,14 @@ def exC : Cols := .nest [.leaf [8, 16, 24], .nest [.leaf [9, 17, 25], .leaf [10,
 example : exC.lock 3 := by simp [exC]
 example : (gatherWin exC ⟨0, 3⟩ [2, 0, 1]).leaves = [[24, 8, 16], [25, 9, 17], [26, 10, 18]] := by decide
 example : isPerm [2, 0, 1] 3 = true := by decide
+
+/-- **text pin**: the generated functions this property's hand-written model describes have, in
+    /repo today, exactly the text the model was written from (`Soa/Model/Pinned.lean`) -/
+theorem bodies_pinned :
+    Soa.Extracted.bodies.filter (fun r => Soa.Model.scopeOf r == "C07") =
+    Soa.Model.pinned.filter (fun r => Soa.Model.scopeOf r == "C07") := by decide +kernel
+
+theorem bodies_pinned_nonempty :
+    (Soa.Model.pinned.filter (fun r => Soa.Model.scopeOf r == "C07")).length ≥ 4 := by decide +kernel
 
 end Soa.C07
